@@ -416,10 +416,25 @@ class HFileIO(io.FileIO):
         return r
 
     def close(self):
+        pending = None
         if not self.closed:
             STATE.flocks.pop(self._hs_fd, None)
+            if self._hs_rel is not None and self.writable() and cur() is not None:
+                # close(2) of a file that was written can report an I/O error (write-back on network file systems, quota):
+                # a fault site and crash point, never a scheduling point (it touches nothing another thread can see).
+                # The descriptor is released even when the call fails.
+                w = cur()
+                real = self._hs_real()
+                w.real = (real,)
+                try:
+                    w.private(("write", "close", canon(real)))
+                except OSError as e:
+                    pending = e
         try:
-            return super().close()
+            r = super().close()
+            if pending is not None:
+                raise pending
+            return r
         finally:
             if self in STATE.files:
                 try:
@@ -799,9 +814,113 @@ class SList(list):
         return (list, (list(self),))
 
 
+class SProxyList:
+    """What multiprocessing.Manager().list() hands out: a PROXY, not a list.  It exposes exactly the methods of
+    multiprocessing.managers.ListProxy, each of which is one IPC round trip that the manager process serves atomically;
+    there is no __iter__ (iterating, `list(proxy)`, `x in list(proxy)` fall back to __len__ + __getitem__(0), (1), ... -
+    one round trip each, so another process can change the list in between), `remove` of a missing value raises, and
+    `+=` replaces nothing locally.  A round trip made while the calling process holds no lock is a scheduling point."""
+
+    def __init__(self, *a):
+        self._l = list(*a)
+
+    _hs_access = SList._hs_access
+
+    def _rt(self, what):
+        self._hs_access(what)
+
+    def __len__(self):
+        self._rt("read")
+        return len(self._l)
+
+    def __getitem__(self, i):
+        self._rt("read")
+        return self._l[i]
+
+    def __setitem__(self, i, v):
+        self._rt("write")
+        self._l[i] = v
+
+    def __delitem__(self, i):
+        self._rt("write")
+        del self._l[i]
+
+    def __contains__(self, x):
+        self._rt("read")
+        return x in self._l
+
+    def __add__(self, o):
+        self._rt("read")
+        return self._l + list(o)
+
+    def __mul__(self, n):
+        self._rt("read")
+        return self._l * n
+
+    __rmul__ = __mul__
+
+    def __reversed__(self):
+        self._rt("read")
+        return reversed(list(self._l))
+
+    def __iadd__(self, o):
+        self._rt("write")
+        self._l.extend(o)
+        return self
+
+    def __imul__(self, n):
+        self._rt("write")
+        self._l *= n
+        return self
+
+    def append(self, x):
+        self._rt("write")
+        self._l.append(x)
+
+    def extend(self, xs):
+        self._rt("write")
+        self._l.extend(xs)
+
+    def insert(self, i, x):
+        self._rt("write")
+        self._l.insert(i, x)
+
+    def pop(self, *a):
+        self._rt("write")
+        return self._l.pop(*a)
+
+    def remove(self, x):
+        self._rt("write")
+        self._l.remove(x)
+
+    def reverse(self):
+        self._rt("write")
+        self._l.reverse()
+
+    def sort(self, *a, **k):
+        self._rt("write")
+        self._l.sort(*a, **k)
+
+    def count(self, x):
+        self._rt("read")
+        return self._l.count(x)
+
+    def index(self, *a):
+        self._rt("read")
+        return self._l.index(*a)
+
+    def __repr__(self):
+        return repr(self._l)
+
+    __str__ = __repr__
+
+    def __reduce__(self):
+        return (list, (list(self._l),))
+
+
 class _Manager:
     def list(self, *a):
-        return SList(*a)
+        return SProxyList(*a)
 
     def dict(self, *a, **k):
         return dict(*a, **k)
@@ -906,6 +1025,16 @@ def install(locks=True):
         import sys
         sys.addaudithook(_audit)
         STATE.audit = True
+        prev_hook = sys.unraisablehook
+
+        def _unraisable(u):
+            # a file object closed by the garbage collector (a NamedTemporaryFile the package never closes itself) can be hit
+            # by an injected close() error: the interpreter ignores an exception raised in a finalizer - and so does the
+            # harness, silently
+            if isinstance(u.exc_value, OSError) and "(injected" in str(u.exc_value):
+                return
+            prev_hook(u)
+        sys.unraisablehook = _unraisable
     STATE.installed = True
 
 
